@@ -48,6 +48,11 @@ type Script struct {
 	// blocks does not have to be written out in a replay file). Event offsets
 	// refer to the expanded stream.
 	Rep *Repeat `json:"repeat,omitempty"`
+	// Endless: after the stream the device serves an endless deterministic tail
+	// instead of io.EOF. Set for the properties that do not judge Random (C10,
+	// C15, C16): a library that draws entropy elsewhere (blinding) must not be
+	// starved by a script that was sized for the Random calls only.
+	Endless bool `json:"endless,omitempty"`
 	// ByteReader installs the device with an io.ByteReader method as well.
 	ByteReader bool `json:"byte_reader,omitempty"`
 	// MaxChunk > 0 cuts every fault-free read to at most MaxChunk bytes.
@@ -211,7 +216,18 @@ func (d *Device) Read(p []byte) (int, error) {
 				d.Fired["err_no_data:"+e.Err]++
 			}
 		}
-	} else if rem == 0 {
+	} else if rem <= 0 && d.S.Endless {
+		// past the script: bytes that are a fixed function of the position
+		n = want
+		d.Fired["endless_tail_read"]++
+		for i := range p[:n] {
+			p[i] = tailByte(d.pos + i)
+		}
+		d.Log = append(d.Log, Rec{Task: task, Off: d.pos, Want: want, N: n, Data: append([]byte(nil), p[:n]...)})
+		d.pos += n
+		d.empty[task] = 0
+		return n, nil
+	} else if rem <= 0 {
 		err = io.EOF
 		d.Fired["stream_end_eof"]++
 	} else {
@@ -275,6 +291,15 @@ func (b ByteDevice) ReadByte() (byte, error) {
 			return 0, err
 		}
 	}
+}
+
+// tailByte is byte i of the endless tail (splitmix64 of the word index).
+func tailByte(i int) byte {
+	z := uint64(i/8)*0x9e3779b97f4a7c15 + 0x9e3779b97f4a7c15
+	z = (z ^ (z >> 30)) * 0xbf58476d1ce4e5b9
+	z = (z ^ (z >> 27)) * 0x94d049bb133111eb
+	z ^= z >> 31
+	return byte(z >> (8 * uint(i%8)))
 }
 
 // Pos returns the stream position.
